@@ -3,7 +3,7 @@
 From Coq Require Import ZArith List String Bool.
 From Model Require Import PyBase PeriodicTable IsoBits Valence.
 From Gen Require Import Elements RuntimeDump IsoLayout ElemCode ElemRules ElemVariants.
-From Proofs Require Import PeriodicTable IsoLayoutTie PeriodicMatcher ElemCodeTie ElemRulesTie ElemVariantsTie.
+From Proofs Require Import PeriodicTable IsoLayoutTie PeriodicMatcher ElemCodeTie ElemRulesTie ElemRulesExt ElemVariantsTie.
 Import ListNotations.
 Open Scope Z_scope.
 
@@ -301,6 +301,21 @@ Print Assumptions C18_source_rule_hydrogens_representable.
 Theorem C18_source_compile_empty_common : forall e, e_common e = [] -> g_compiled_valence_rules e = Err IndexError.
 Proof. exact source_compile_empty_common. Qed.
 Print Assumptions C18_source_compile_empty_common.
+
+(* the complete case analysis of the translated compiler's outcome for ANY element record (by induction over the tables): IndexError
+   iff _common_valences is empty; otherwise it returns iff every symbol of every exception environment names an element class, and
+   raises KeyError if one does not; the 118 tables are well formed in this sense *)
+Theorem C18_source_compile_outcome : forall e,
+  (e_common e = [] -> g_compiled_valence_rules e = Err IndexError) /\
+  (e_common e <> [] -> exceptions_known e = true -> exists t, g_compiled_valence_rules e = Ok t) /\
+  (e_common e <> [] -> exceptions_known e = false -> g_compiled_valence_rules e = Err KeyError).
+Proof. exact source_compile_outcome. Qed.
+Print Assumptions C18_source_compile_outcome.
+
+Theorem C18_tables_well_formed :
+  forallb (fun e => negb (match e_common e with [] => true | _ => false end) && exceptions_known e) elements = true.
+Proof. exact tables_well_formed_all. Qed.
+Print Assumptions C18_tables_well_formed.
 
 Theorem C18_source_rules_examples :
   g_valence_rules el_C 0 false 4 = Ok [mkRule [] [] 0] /\
